@@ -197,6 +197,8 @@ def judge(module, cfg, records, shards=None, timeout=3600, tag='judge', env=None
     if not records:
         return {}, 0
     shards = shards or min(4, max(1, (len(records) + 19999) // 20000))
+    # TLC cannot follow a behaviour of 65 536 or more states and a shard is one behaviour (one state per record): more shards, four at a time
+    shards = max(shards, (len(records) + 49999) // 50000)
     d = outdir('tlc', tag + '_' + uuid.uuid4().hex[:8])
     files = []
     per = (len(records) + shards - 1) // shards
